@@ -539,6 +539,55 @@ Qed.
 
 End VandermondeSolve.
 
+Theorem vandermonde_interp : forall xs p, xs <> [] -> NoDup xs -> (length p <= length xs)%nat ->
+  vandermonde_interpolate K xs (map (peval K p) xs) = Ok (p ++ repeat 0 (length xs - length p)).
+Proof. exact (vandermonde_interp_gen (solve_right_sound K HK) (solve_right_complete K HK)). Qed.
+
+(* distinct nodes: the Vandermonde system is always solvable (never ErrSingular), for arbitrary
+   values; the witness is the Lagrange interpolant *)
+Theorem vandermonde_total : forall xs ys, xs <> [] -> NoDup xs -> length ys = length xs ->
+  exists c, vandermonde_interpolate K xs ys = Ok c /\ length c = length xs /\
+            map (peval K c) xs = ys.
+Proof.
+  intros xs ys Hxs Hnd Hlen.
+  rewrite (vandermonde_interpolate_eq xs ys Hxs Hlen).
+  remember (length xs) as n eqn:En.
+  assert (Hn : (0 < n)%nat) by (subst n; destruct xs; [congruence | cbn [length]; lia]).
+  set (L := plincomb K (basis_polys K xs) ys).
+  assert (HL : (length L <= n)%nat).
+  { subst n. apply plincomb_length. apply basis_polys_deg. }
+  remember (L ++ repeat 0 (n - length L)) as pp eqn:Epp.
+  assert (Hpp : length pp = n) by (subst pp; rewrite app_length, repeat_length; lia).
+  remember (vandermonde_matrix K xs n) as V eqn:EV.
+  assert (HV : wf_matrix n n V) by (subst V n; apply vandermonde_wf).
+  assert (Hbpp : mvec K V pp = ys).
+  { subst V. rewrite <- Hpp. rewrite vandermonde_mvec.
+    apply (nth_ext_eq _ _ 0).
+    - rewrite map_length. lia.
+    - intros k Hk. rewrite map_length in Hk.
+      rewrite (nth_map_peval_r pp xs k Hk). subst pp.
+      rewrite (peval_r_pad K HK). unfold L. rewrite lagrange_poly.
+      apply (dot_basis_at_node xs ys k Hnd Hk). }
+  destruct (solve_right K V ys) as [c|] eqn:Es.
+  - destruct (solve_right_sound K HK n n V ys c HV Hn Hn Hlen Es) as [Hc Hmv].
+    exists c. split; [reflexivity|]. split; [exact Hc|].
+    rewrite (map_ext (peval K c) (peval_r K c)) by (intro; apply (peval_eq_peval_r K HK)).
+    rewrite <- (vandermonde_mvec xs c), Hc, <- EV. exact Hmv.
+  - exfalso. exact (solve_right_complete K HK n n V ys pp HV Hn Hn Hlen Hpp Hbpp Es).
+Qed.
+
+(* the two interpolation routines agree: evaluating the Vandermonde coefficients at any point
+   gives the Lagrange value *)
+Theorem vandermonde_lagrange_agree : forall xs ys c at_, xs <> [] -> NoDup xs -> length ys = length xs ->
+  vandermonde_interpolate K xs ys = Ok c ->
+  lagrange_interpolate_at K xs ys at_ = Ok (peval K c at_).
+Proof.
+  intros xs ys c at_ Hxs Hnd Hlen Hv.
+  destruct (vandermonde_total xs ys Hxs Hnd Hlen) as [c' [Hv' [Hc' Hev]]].
+  rewrite Hv in Hv'. inversion Hv'; subst c'.
+  rewrite <- Hev at 1. apply lagrange_interp; [exact Hnd|lia].
+Qed.
+
 (* ---- (e) Birkhoff: phi with derivative order 0 is the power ------------------------------ *)
 
 Lemma phi_0 : forall t x, phi K t x 0%N = fpow K x t.
